@@ -409,3 +409,13 @@ mod test {
         );
     }
 }
+
+// Verification hooks (contract-based deductive verification harnesses living
+// outside this repository). Compiled only with `--cfg falcon_rust_verif`;
+// the included file is $FALCON_RUST_VERIF_DIR/hooks/cyclotomic_fourier.rs.
+#[cfg(falcon_rust_verif)]
+#[allow(unused, clippy::all)]
+pub(crate) mod verif {
+    use super::*;
+    include!(concat!(env!("FALCON_RUST_VERIF_DIR"), "/hooks/cyclotomic_fourier.rs"));
+}
